@@ -1295,8 +1295,75 @@ def suite_proxy(ctx):
     return res
 
 
+def suite_burst(ctx):
+    """several events are pending when the main process gets to pump: each of them is handed back exactly once, also when the
+    handling of an EARLIER one raises.  Impl-level oracle on the real MITMProxyEventManager (no model: the model's pump handles one
+    event; this is the clause that pumps are independent of each other)."""
+    import queue
+    from mitmproxy.test import tflow, tutils
+    from hippolyzer.lib.proxy.addons import AddonManager
+    from hippolyzer.lib.proxy.http_event_manager import MITMProxyEventManager
+    from hippolyzer.lib.proxy.sessions import SessionManager
+    from hippolyzer.lib.proxy.settings import ProxySettings
+    res = CorrResult(suite="bursts: several pending events, one of them raising - every flow handed back exactly once (impl-level oracle)",
+                     rule="2..5 request/response events queued before the pump runs, the handling of none / the first / a middle / the last "
+                          "one raising (cap resolution fault for that flow only); pump_proxy_event is driven until the queue is empty; "
+                          "callbacks per flow id")
+    n_cases = 0
+    seen = set()
+    for n in (2, 3, 5):
+        for bad in [None] + list(range(n)):
+            for ev in ("request", "response"):
+                n_cases += 1
+                sm = SessionManager(ProxySettings())
+                AddonManager.init([], sm, [])
+                fc = _FlowContext(queue.Queue())
+                sm.flow_context = fc            # flows put their callbacks on the session manager's flow context
+                em = MITMProxyEventManager(sm, fc)
+                orig = sm.resolve_cap
+
+                def resolve(url, _orig=orig):
+                    if "boom" in url:
+                        raise _Injected("injected fault")
+                    return _orig(url)
+                sm.resolve_cap = resolve
+                ids = []
+                for i in range(n):
+                    req = tutils.treq(host="h%d.test" % i, path=b"/boom" if i == bad else b"/ok")
+                    fl = tflow.tflow(req=req, resp=tutils.tresp()) if ev == "response" else tflow.tflow(req=req)
+                    ids.append(fl.id)
+                    fc.from_proxy_queue.put((ev, fl.get_state()))
+                pumps = 0
+                while not fc.from_proxy_queue.empty() and pumps < 4 * n:
+                    pumps += 1
+                    coro = em.pump_proxy_event()
+                    try:
+                        with contextlib.redirect_stdout(io.StringIO()):
+                            coro.send(None)
+                        coro.close()
+                    except StopIteration:
+                        pass
+                    except Exception:   # noqa
+                        pass
+                counts = {i: 0 for i in ids}
+                while not fc.to_proxy_queue.empty():
+                    item = fc.to_proxy_queue.get()
+                    if item[0] == "callback" and item[1] in counts:
+                        counts[item[1]] += 1
+                got = [counts[i] for i in ids]
+                if got != [1] * n and "burst" not in seen:
+                    seen.add("burst")
+                    res.impl_violations.append({"clause": "every event handed to the main process is handed back exactly once, regardless of "
+                                                          "which handler raises (also for the events queued behind the raising one)",
+                                                "class": "burst-not-handed-back-once", "events": n, "event": ev, "raising_index": bad,
+                                                "callbacks_per_flow": got, "kind": "burst"})
+    res.evaluations = n_cases
+    res.distinct_nontrivial = n_cases
+    return res
+
+
 def correspond(ctx):
-    return [suite_pump(ctx), suite_capdata(ctx), suite_transfer(ctx), suite_proxy(ctx)]
+    return [suite_pump(ctx), suite_capdata(ctx), suite_transfer(ctx), suite_proxy(ctx), suite_burst(ctx)]
 
 
 # --------------------------------------------------------------------------
@@ -1375,6 +1442,9 @@ def replay(ctx, case):
             env = Env()
             obs = env.run_case(c)
             return bool(obs["oracle"]), (obs["oracle"][0] if obs["oracle"] else "holds: " + obs["line"])
+        if kind == "burst":
+            r = suite_burst(ctx)
+            return (True, r.impl_violations[0]) if r.impl_violations else (False, "holds")
         if kind == "proxy":
             got = run_proxy_pump(c["ev"], bool(c["present"]), bool(c["set_ok"]))
             bad = c["ev"] in (0, 1) and c["present"] and not got.startswith("1 ")
